@@ -511,6 +511,10 @@ class Node:
         mapping_values = list()
         for item in attr_node.seq_items():
             # we've already checked that it's a SequenceNode above
+            # work on a copy, the item's node may be used elsewhere too
+            item = Node(yaml.MappingNode(
+                item.yaml_node.tag, list(item.yaml_node.value),
+                item.yaml_node.start_mark, item.yaml_node.end_mark))
             key_node = item.get_attribute(key_attribute).yaml_node
             item.remove_attribute(key_attribute)
             if (
@@ -749,10 +753,13 @@ class Node:
 
         new_value = list()
         for key_node, value_node in attr_node.yaml_node.value:
-            # filter out key atttribute
-            value_node.value = [
-                    (k, v) for k, v in value_node.value
-                    if k.value != key_attribute]
+            # filter out key atttribute, in a copy: the item's node may be
+            # used elsewhere too
+            value_node = yaml.MappingNode(
+                    value_node.tag,
+                    [(k, v) for k, v in value_node.value
+                     if k.value != key_attribute],
+                    value_node.start_mark, value_node.end_mark)
 
             # replace mapping with value attribute, if it's the only one
             if (
